@@ -1216,3 +1216,120 @@ Theorem C20_concurrent_false_alarm :
   false_alarm false false il_alarm = true.
 Proof. exact conc_false_alarm. Qed.
 Print Assumptions C20_concurrent_false_alarm.
+
+(** ========================================================================
+    Placement of the serialisation call (Cli/PlaceModel.v, PlaceProofs.v).
+    FormatModel.patch_cmd_g / run_hist fix the json branch at [ShBuf DInside] (where
+    the code calls json_dumps).  [patch_cmd_gp pos] / [run_hist_p] take the placement
+    as a parameter - the correspondence check evaluates them at the placement it reads
+    off the implementation's call trace, so that moving json_dumps out of the `with`
+    block (a property-preserving rewrite) is not reported.  Below: at [DInside] they
+    ARE the programs of round 3; on a json target [patch_cmd_gp pos] is
+    FsModel.patch_cmd at the same [pos] (for which C20_patch_reproduces,
+    C20_patch_single_fault_restores ... are stated, all [pos]); the history theorems
+    hold for every placement. *)
+From DD Require Import Cli.PlaceModel Cli.PlaceProofs.
+
+Theorem C20_placement_inside_is_patch_cmd_g :
+  forall (X doc delta : Type) (parse : fmt -> FsModel.content X -> option doc)
+         (dump : fmt -> doc -> option (FsModel.content X)) (can_load can_save : fmt -> bool)
+         (unpickle : FsModel.content X -> option delta) (apply_delta : delta -> doc -> doc)
+         (ev : GenModel.env X) (keep : bool) (A P : FsModel.path) (sch : FsModel.schedule X) (f : FsModel.fs X),
+    patch_cmd_gp parse dump can_load can_save unpickle apply_delta FsModel.DInside ev keep A P sch f =
+    patch_cmd_g parse dump can_load can_save unpickle apply_delta ev keep A P sch f.
+Proof. exact patch_cmd_gp_inside. Qed.
+Print Assumptions C20_placement_inside_is_patch_cmd_g.
+
+Theorem C20_placement_inside_is_run_hist :
+  forall (X doc delta : Type) (parse : fmt -> FsModel.content X -> option doc)
+         (dump : fmt -> doc -> option (FsModel.content X)) (can_load can_save : fmt -> bool)
+         (unpickle : FsModel.content X -> option delta) (apply_delta : delta -> doc -> doc)
+         (A : FsModel.path) (cs : list (cmd X)) (f : FsModel.fs X),
+    run_hist_p parse dump can_load can_save unpickle apply_delta A (map (pair FsModel.DInside) cs) f =
+    run_hist parse dump can_load can_save unpickle apply_delta A cs f.
+Proof. exact run_hist_p_inside. Qed.
+Print Assumptions C20_placement_inside_is_run_hist.
+
+(** the placement concerns the json branch only *)
+Theorem C20_placement_other_formats :
+  forall (X doc delta : Type) (parse : fmt -> FsModel.content X -> option doc)
+         (dump : fmt -> doc -> option (FsModel.content X)) (can_load can_save : fmt -> bool)
+         (unpickle : FsModel.content X -> option delta) (apply_delta : delta -> doc -> doc)
+         (pos : FsModel.dumps_pos) (ev : GenModel.env X) (keep : bool) (A P : FsModel.path)
+         (sch : FsModel.schedule X) (f : FsModel.fs X),
+    fmt_of_path A <> Some FJson ->
+    patch_cmd_gp parse dump can_load can_save unpickle apply_delta pos ev keep A P sch f =
+    patch_cmd_g parse dump can_load can_save unpickle apply_delta ev keep A P sch f.
+Proof. exact patch_cmd_gp_other_formats. Qed.
+Print Assumptions C20_placement_other_formats.
+
+(** on a .json path [patch_cmd_gp pos] is FsModel.patch_cmd at the same placement *)
+Theorem C20_placement_json_instance :
+  forall (X doc delta : Type) (parse : fmt -> FsModel.content X -> option doc)
+         (dump : fmt -> doc -> option (FsModel.content X)) (can_load can_save : fmt -> bool)
+         (unpickle : FsModel.content X -> option delta) (apply_delta : delta -> doc -> doc)
+         (pos : FsModel.dumps_pos) (keep : bool) (A P : FsModel.path) (sch : FsModel.schedule X) (f : FsModel.fs X),
+    fmt_of_path A = Some FJson ->
+    can_load FJson = true ->
+    can_save FJson = true ->
+    snd (patch_cmd_gp parse dump can_load can_save unpickle apply_delta pos GenModel.env0 keep A P sch f) =
+    snd (FsModel.patch_cmd (parse FJson) (dump FJson) unpickle apply_delta pos keep A P sch f) /\
+    (forall q : FsModel.path,
+        fst (patch_cmd_gp parse dump can_load can_save unpickle apply_delta pos GenModel.env0 keep A P sch f) q =
+        fst (FsModel.patch_cmd (parse FJson) (dump FJson) unpickle apply_delta pos keep A P sch f) q).
+Proof. exact patch_cmd_gp_json. Qed.
+Print Assumptions C20_placement_json_instance.
+
+(** C20_history_step for EVERY placement of the serialisation call *)
+Theorem C20_history_step_any_placement :
+  forall (X doc delta : Type) (parse : fmt -> FsModel.content X -> option doc)
+         (dump : fmt -> doc -> option (FsModel.content X)) (can_load can_save : fmt -> bool)
+         (unpickle : FsModel.content X -> option delta) (apply_delta : delta -> doc -> doc)
+         (pos : FsModel.dumps_pos) (ev : GenModel.env X) (keep : bool) (A P : FsModel.path)
+         (sch : FsModel.schedule X) (f f' : FsModel.fs X) (o : FsModel.outcome) (cur : FsModel.content X) (fa : fmt),
+    fmt_of_path A = Some fa ->
+    debris_unloadable parse fa ev sch ->
+    Inv parse can_load A f cur ->
+    patch_cmd_gp parse dump can_load can_save unpickle apply_delta pos ev keep A P sch f = (f', o) ->
+    (forall q : FsModel.path, q <> A -> q <> FsModel.bak A -> f' q = f q) /\
+    (Inv parse can_load A f' cur \/
+     (exists (dl : delta) (a : doc) (c : FsModel.content X),
+         parse fa cur = Some a /\ dump fa (apply_delta dl a) = Some c /\ f' A = Some c)) /\
+    (o = FsModel.Done -> f A = Some cur /\ f' (FsModel.bak A) = (if keep then Some cur else None)).
+Proof. exact patch_gp_inv_step. Qed.
+Print Assumptions C20_history_step_any_placement.
+
+(** C20_history_good_version_survives for EVERY placement, command by command *)
+Theorem C20_history_good_version_survives_any_placement :
+  forall (X doc delta : Type) (parse : fmt -> FsModel.content X -> option doc)
+         (dump : fmt -> doc -> option (FsModel.content X)) (can_load can_save : fmt -> bool)
+         (unpickle : FsModel.content X -> option delta) (apply_delta : delta -> doc -> doc)
+         (fa : fmt) (Good : FsModel.content X -> Prop),
+    (forall (c : FsModel.content X) (a : doc) (dl : delta) (c' : FsModel.content X),
+        Good c -> parse fa c = Some a -> dump fa (apply_delta dl a) = Some c' -> Good c') ->
+    forall (A : FsModel.path) (cs : list (FsModel.dumps_pos * cmd X)) (f : FsModel.fs X),
+      fmt_of_path A = Some fa ->
+      Forall (fun c : FsModel.dumps_pos * cmd X => debris_unloadable parse fa (c_env (snd c)) (c_sch (snd c))) cs ->
+      (exists cur : FsModel.content X, Good cur /\ Inv parse can_load A f cur) ->
+      (exists cur' : FsModel.content X,
+          Good cur' /\
+          Inv parse can_load A (fst (run_hist_p parse dump can_load can_save unpickle apply_delta A cs f)) cur') /\
+      (forall q : FsModel.path,
+          q <> A ->
+          q <> FsModel.bak A -> fst (run_hist_p parse dump can_load can_save unpickle apply_delta A cs f) q = f q).
+Proof. exact hist_p_good_version_survives. Qed.
+Print Assumptions C20_history_good_version_survives_any_placement.
+
+(** the parameter is not idle: an interrupt at the serialisation step leaves the target
+    empty (json_dumps inside the `with` block) or absent (before `open`); the original is
+    in A.bak both times *)
+Example C20_placement_observable :
+  let sch := FsModel.single FsModel.SDumps (FsModel.mkFault FsModel.KBase None) in
+  let run pos := patch_cmd_gp hx_parse hx_dump (fun _ => true) (fun _ => true) hx_unpickle (fun (d : N) (_ : N) => d)
+                              pos GenModel.env0 false hx_A hx_P sch hx_f2 in
+  snd (run FsModel.DInside) = FsModel.Raised FsModel.KBase FsModel.SDumps /\
+  snd (run FsModel.DBeforeOpen) = FsModel.Raised FsModel.KBase FsModel.SDumps /\
+  fst (run FsModel.DInside) hx_A = Some [] /\ fst (run FsModel.DBeforeOpen) hx_A = None /\
+  fst (run FsModel.DInside) (FsModel.bak hx_A) = Some [1%N] /\ fst (run FsModel.DBeforeOpen) (FsModel.bak hx_A) = Some [1%N].
+Proof. exact ex_placement_observable. Qed.
+Print Assumptions C20_placement_observable.
